@@ -34,7 +34,7 @@ ASSUMPTIONS = [
 PROBES = ["rules_total", "cat_accessible", "cat_tuned", "cat_failed", "all_three_in_one_run", "tuned_via_variable", "tuned_literal",
           "nested_depth_3", "nested_rule_tuned", "premium_runs", "default_bg_runs", "shared_var_sheet", "root_direct_color",
           "fallback_used", "important_present", "prop_case_present", "alpha_text_tuned", "api_calls", "dir_invocation",
-          "mode0", "mode1", "mode2", "report_present", "subprocess_crosscheck", "multi_file_runs", "inplace_model_evaluated", "inplace_model_matched"]
+          "mode0", "mode1", "mode2", "report_present", "subprocess_crosscheck", "multi_file_runs", "inplace_model_evaluated", "inplace_model_matched", "real_interpreter_runs", "non_utf8_locale_runs"]
 
 C08_FEATURES = tuple(f for f in gen.ALL_FEATURES if f not in gen.C09_ONLY)
 
@@ -59,6 +59,13 @@ def generate(rseed, tier, idx):
     env = {"cwd": e.choice(("cwd", "cwd", "tree")), "tty": e.random() < 0.3, "argform": e.choice(("abs", "abs", "rel")),
            "inv": e.choice(("file", "file", "dir")), "name": e.choice(("a.css", "style.css", "my style.css", "thème.css"))}
     tr = {"prop": ID, "ast": ast, "feats": feats, "settings": settings, "env": env, "subproc": idx % 16 == 3}
+    if idx % 12 == 7:
+        # executed by a real interpreter under a non-UTF-8 locale (or, as a control, a UTF-8 one)
+        env["real"] = e.choice(("C", "C", "utf8"))
+        if env["real"] == "C":
+            # under an ASCII locale Python decodes non-ASCII FILE NAMES with surrogateescape, which no UTF-8 report can
+            # hold: that is the interpreter's limitation, not something C08 quantifies over. Contents stay non-ASCII.
+            env["name"] = e.choice(("a.css", "style.css", "my style.css"))
     if g.random() < 0.2:
         # a directory of two stylesheets: custom properties defined in one, referenced (without definition) in the other
         f2 = gen.draw_features(g, C08_FEATURES, 0.3)
@@ -302,8 +309,14 @@ def execute(trace):
                 fh.write(text.encode("utf-8"))
         name, text = sheets[0]
         target = "tree/" + name if (env["inv"] == "file" and not multi) else "tree"
-        res = base.in_fork(cli_run.cli_exec, root, target, settings, cwd_rel=env["cwd"], order_key=trace.get("order_key"),
-                           tty=env["tty"], argform=env["argform"], timeout=200)
+        if env.get("real") and not multi:
+            res = cli_run.cli_exec_real(root, target, settings, cwd_rel=env["cwd"], argform=env["argform"], locale_mode=env["real"])
+            bump("real_interpreter_runs")
+            if env["real"] == "C":
+                bump("non_utf8_locale_runs")
+        else:
+            res = base.in_fork(cli_run.cli_exec, root, target, settings, cwd_rel=env["cwd"], order_key=trace.get("order_key"),
+                               tty=env["tty"], argform=env["argform"], timeout=200)
         after = seams.snapshot(root)
         out_ents = {n: after.get("tree/" + n[:-4] + "_cm.css") for n, _ in sheets}
         out_ent = out_ents[name]
@@ -492,7 +505,7 @@ def execute(trace):
 
         # 8. fidelity of the simulation itself: the real entry point in a real subprocess (pipes, real open, OS
         #    traversal order) must produce the same bytes and the same summary as the in-process run behind seams
-        if trace.get("subproc") and not multi:
+        if trace.get("subproc") and not multi and not env.get("real"):
             bump("subprocess_crosscheck")
             _subprocess_crosscheck(root, name, text, target, settings, env, res, out_ent, rep_ent)
 
@@ -601,6 +614,11 @@ def shrink(trace):
         del t["settings"][k]
         yield t
     base_env = {"cwd": "cwd", "tty": False, "argform": "abs", "inv": "file", "name": "a.css"}
+    if trace["env"].get("real"):
+        base_env["real"] = trace["env"]["real"]
+        t = copy.deepcopy(trace)
+        del t["env"]["real"]
+        yield t
     if trace["env"] != base_env:
         t = copy.deepcopy(trace)
         t["env"] = base_env
